@@ -352,6 +352,160 @@ def expand(args):
     return acc.export(), [(k, h) for k, h in found.items()]
 
 
+# ---------------------------------------------------------------------------------------------------------------------------------
+# sessions on ONE live array object (the BFS above re-creates the object for every successor: per-object caches start empty there)
+
+
+def check_reads_light(acc, a, grid, W, case):
+    """Shape, every row, and a fixed menu of region reads (for arrays too tall for check_reads)."""
+    H = len(grid)
+    if a.shape != (H, W) or len(a) != H:
+        acc.failure("C04:shape", case, "shape %r, grid %r x %r" % (a.shape, H, W))
+        return False
+    now = grid_of(a)
+    ok = True
+    for r in range(H):
+        if strip(now[r]) != strip(grid[r]):
+            acc.failure("C04:read_row", dict(case, read="a[%d]" % r), "got %r, cells show %r" % (now[r], grid[r]))
+            return False
+    rs = sorted({0, 1, H // 2, max(0, H - 2), max(0, H - 1), H})
+    for r0 in rs:
+        for r1 in sorted({r0, r0 + 1, r0 + 3, H, H + 1, H + 5}):
+            if r1 < r0:
+                continue
+            for c0, c1 in ((0, W), (1, max(1, W - 1)), (0, 1)):
+                got = [C.cells(x) for x in a[r0:r1, c0:c1]]
+                want = [row[c0:c1] for row in grid[r0:r1]]
+                if [strip(x) for x in got] != [strip(x) for x in want]:
+                    acc.failure("C04:read_region", dict(case, read="a[%d:%d,%d:%d]" % (r0, r1, c0, c1)), "got %d rows %r want %d rows %r" % (len(got), got[:3], len(want), want[:3]))
+                    ok = False
+    return ok
+
+
+def session_tall(args):
+    """One assignment that grows the array by many rows: block heights 1..70 at start rows inside / straddling the bottom / beyond."""
+    tier, seed, H0, part = args
+    from curtsies.formatstringarray import FSArray
+
+    acc = Acc(seed=seed, sample_stride=499)
+    W = 4
+    top = 120 if tier == "thorough" else 70
+    for n in range(1 + part, top + 1, 4):
+        for r0 in sorted({0, max(0, H0 - 1), max(0, H0 - 3), H0, H0 + 1, H0 + 26, H0 + 40}):
+            for c0, c1 in ((0, W), (1, 3)):
+                for kind in ("fmt", "fsarray", "str"):
+                    a = FSArray(H0, W)
+                    grid = grid_of(a)
+                    # something to preserve in the old rows
+                    if H0:
+                        grid = step(acc, a, grid, W, ("region", 0, H0, 0, 2, "fmt", tuple([("o" * 2, RED)] * H0)), [])
+                        if grid is None:
+                            continue
+                    act = ("region", r0, r0 + n, c0, c1, kind, tuple([("x" * (c1 - c0), () if kind == "str" else RED)] * n))
+                    case = {"initial": "FSArray(%d,%d) with 'oo' in every row" % (H0, W), "action": {"rows": [r0, r0 + n], "cols": [c0, c1], "block_kind": kind, "block_rows": n}}
+                    acc.case(True, key=("tall", H0, n, r0, c0, c1, kind), sample=case)
+                    check_reads_light(acc, a, grid, W, dict(case, when="before"))
+                    g = step(acc, a, grid, W, act, [])
+                    if g is None:
+                        continue
+                    acc.state(hash(canon(a)))
+                    check_reads_light(acc, a, g, W, dict(case, when="after"))
+    return acc.export()
+
+
+def session_menu(H, W, sym):
+    out = []
+    for r0 in range(0, H + 2):
+        for n in (0, 1, 2):
+            for c0, c1 in ((0, 0), (0, 1), (0, W), (1, 2)):
+                w = c1 - c0
+                out.append(("region", r0, r0 + n, c0, c1, "fmt", tuple([(sym * w, RED)] * n)))
+    return out
+
+
+def session_same_object(args):
+    """Every history of <= depth assignments from a reduced menu (cells, whole rows, writes further down, empty-width regions that
+    only grow the array) on ONE object, with every read form taken on that same object before the first and after every assignment."""
+    tier, seed, shape, part, nparts = args
+    from curtsies.formatstringarray import FSArray
+
+    acc = Acc(seed=seed, sample_stride=1999)
+    H0, W = shape
+    depth = 3 if tier == "thorough" else 2
+
+    def rec(hist):
+        a = FSArray(H0, W)
+        grid = grid_of(a)
+        case0 = {"initial": "FSArray(%d,%d)" % shape, "same_object": True}
+        if not check_reads(acc, a, grid, W, dict(case0, history=[])):
+            return None
+        for i, act in enumerate(hist):
+            grid = step(acc, a, grid, W, act, hist[:i])
+            if grid is None:
+                return None
+            if not check_reads(acc, a, grid, W, dict(case0, history=[show_act(h) for h in hist[: i + 1]])):
+                return None
+        return len(grid)
+
+    def walk(hist, H):
+        for ai, act in enumerate(session_menu(H, W, "xyz"[len(hist)])):
+            if not hist and ai % nparts != part:
+                continue
+            h2 = hist + [act]
+            acc.case(True, key=("same", shape, tuple(h2)), sample=lambda: {"initial": "FSArray(%d,%d)" % shape, "history": [show_act(h) for h in h2], "reads": "all forms, same object, after every step"})
+            H2 = rec(h2)
+            if H2 is not None and len(h2) < depth and H2 <= H0 + 4:
+                walk(h2, H2)
+
+    walk([], H0)
+    return acc.export()
+
+
+PAINT = [
+    {"fg": 32, "invert": True}, {"invert": True}, {"fg": 31, "invert": True}, {"bg": 44}, {"underline": True}, {"fg": 32, "bold": True, "invert": True},
+    {"fg": 33}, {"bold": True}, {"dark": True, "invert": True}, {}, {"blink": True, "invert": True}, {"fg": 32, "underline": True, "invert": True},
+]
+
+
+def session_paint(args):
+    """Long histories on one object: a 3 x 16 array painted cell by cell / pair by pair for 130 writes with a cycling palette in which
+    blanks carry inverse video + colour, background, underline ...; every cell compared after every write."""
+    tier, seed, rot = args
+    from curtsies.formatstringarray import FSArray
+
+    acc = Acc(seed=seed, sample_stride=997)
+    H, W = 3, 16
+    nwrites = 260 if tier == "thorough" else 130
+    for texts in ("spaces", "alternate", "letters"):
+        for wid in (1, 2, 3):
+            for stride in (1, 5):
+                a = FSArray(H, W)
+                grid = grid_of(a)
+                hist = []
+                dead = False
+                for k in range(nwrites):
+                    pos = (k * stride * wid) % (H * W)
+                    r, c0 = divmod(pos, W)
+                    c1 = min(W, c0 + wid)
+                    att = PAINT[(k + rot) % len(PAINT)]
+                    ch = " " if texts == "spaces" or (texts == "alternate" and k % 2 == 0) else "abcdefgh"[k % 8]
+                    act = ("region", r, r + 1, c0, c1, "fmt", ((ch * (c1 - c0), tuple(sorted(att.items()))),))
+                    acc.case(True, key=("paint", rot, texts, wid, stride, k))
+                    grid = step(acc, a, grid, W, act, hist[-3:])
+                    if grid is None:
+                        dead = True
+                        break
+                    hist.append(act)
+                    case = {"session": {"palette_rotation": rot, "texts": texts, "region_width": wid, "stride": stride}, "writes_so_far": k + 1, "last_write": show_act(act)}
+                    if not check_reads_light(acc, a, grid, W, case):
+                        dead = True
+                        break
+                if not dead:
+                    acc.state(hash(canon(a)))
+                    check_reads(acc, a, grid, W, {"session": {"palette_rotation": rot, "texts": texts, "region_width": wid, "stride": stride}, "writes": nwrites}) if W <= 4 else None
+    return acc.export()
+
+
 def check_fsarray_ctor(acc):
     from curtsies.formatstring import fmtstr
     from curtsies.formatstringarray import fsarray
@@ -469,6 +623,13 @@ def run(ctx):
         for i in range(n):
             if any(names[i].startswith(pre) for pre in SHALLOW):
                 frontier[i] = []
+    for d in ctx.pmap(session_tall, [(ctx.tier, ctx.seed, H0, part) for H0 in (0, 1, 3, 10) for part in range(4)]):
+        rep.merge(d, "one_object_tall_growth")
+    shapes = [(2, 3), (3, 4)] if ctx.thorough else [(2, 3)]
+    for d in ctx.pmap(session_same_object, [(ctx.tier, ctx.seed, sh, p, 12) for sh in shapes for p in range(12)]):
+        rep.merge(d, "one_object_reads_between_assignments")
+    for d in ctx.pmap(session_paint, [(ctx.tier, ctx.seed, rot) for rot in range(len(PAINT))]):
+        rep.merge(d, "one_object_painting_sessions")
     acc = Acc(seed=ctx.seed)
     check_fsarray_ctor(acc)
     rep.merge(acc, "fsarray_constructor")
